@@ -74,12 +74,15 @@ def main():
                           "logging, extracted/inlined locals and helpers are normalised away (DESIGN §10). Verdicts are three-valued "
                           "(DESIGN §11): rules that compare the shape of statements abstain (exit 2, undecided) on functions whose "
                           "statement structure no longer matches the reference tree, and obligations that meet a form the engines "
-                          "cannot evaluate are undecided. Measured on 81 behaviour-preserving refactors written by independent "
-                          "sub-agents (DESIGN §6, §13): none draws a false VIOLATION any more, 25 leave at least one check undecided "
-                          "(exit 2); every new batch first found forms that raised alarms and had to be answered by a canonical form "
-                          "or an evaluator — the main weakness of this rule base.",
-            "technique": "static analysis: " + tech + "; generic lints over the anchored functions (loop-carried "
-                         "state, untrimmed level tables, task-argument mutation, library pitfalls, unbound names, negative-index wrapping; DESIGN §12)",
+                          "cannot evaluate are undecided. Measured on 93 behaviour-preserving refactors written by independent "
+                          "sub-agents (DESIGN §6, §13, §14): none draws a false VIOLATION any more, about a quarter leave at least one check "
+                          "undecided (exit 2); every new batch first found forms that raised alarms and had to be answered by a canonical form "
+                          "or an evaluator — the main weakness of this rule base. Two rule families compare with tables frozen from the "
+                          "confirmed tree (vk/refnames.json for renaming / drift, vk/refeffects.json for the path conditions of effects); "
+                          "after a commit to /repo they are regenerated with tools/gen_refnames.py and tools/gen_refeffects.py.",
+            "technique": "static analysis: " + tech + "; generic lints over the anchored functions and every function reachable from them (loop-carried "
+                         "state, untrimmed level tables, task-argument mutation, library pitfalls, unbound names, negative-index wrapping, "
+                         "path conditions of effects vs the confirmed tree, module / instance state and memo lifetimes; DESIGN §12, §14)",
         })
     na = [{"property_id": p, "reason": PENDING.get(p, "check not built yet in this session (static rules designed in DESIGN §4; claimed as soon as the check exists)")}
           for p in ALL if p not in {c["property_id"] for c in checks}]
@@ -94,7 +97,7 @@ def main():
              "kind_free_text": "stdlib-only static analysis kit: program model/resolver (model.py), polynomial domain (poly.py), FAB byte-accounting abstract interpreter (fabio.py), pool protocol (pools.py), line grammars (grammar.py), formula/comparator normal forms (rules.py, formulas.py), option wiring (wiring.py), path classes (paths.py)"}],
         "checks": checks,
         "not_applicable": na,
-        "notes": "All checks are static (ast-based) and run in about a second; exit 0 held / 1 VIOLATION / 2 ANALYSIS-ERROR (an obligation could not be evaluated; never a silent pass). Known genuine defects: /verif/known_findings.json.",
+        "notes": "All checks are static (ast-based) and run in 2-15 seconds each; exit 0 held / 1 VIOLATION / 2 ANALYSIS-ERROR (an obligation could not be evaluated; never a silent pass). Known genuine defects: /verif/known_findings.json.",
     }
     with open(os.path.join(HERE, "MANIFEST.json"), "w") as fh:
         json.dump(m, fh, indent=1)
